@@ -20,7 +20,7 @@ from vpkit import common, zoo
 
 ID = "C34"
 N = {"quick": 90, "thorough": 1500}
-BUDGET = {"quick": 240.0, "thorough": 1500.0}
+BUDGET = {"quick": 240.0, "thorough": 700.0}
 RULE = ("case = one argv for `tsdate date` or `tsdate preprocess` drawn from a grammar over every option "
         "(values incl. 0, booleans switched off, invalid combinations) on a simulated input file; distinct "
         "by argv; non-trivial = the command ran and kwargs + output file were compared (or the "
